@@ -38,7 +38,7 @@ func (P) Engine() string { return "E1" }
 func (P) Describe() harness.Description {
 	return harness.Description{
 		MustHit: []string{"cold_start_checked", "warmed_up_checked", "memory_reading_injected"},
-		Level: "exploration",
+		Level:   "exploration",
 		Rule: "case = warm-up rule (threshold 0.5-60 incl. fractional and below the cold factor, period 1-10 s, cold factor 0 (default), 2-5) with a demand history of phases in virtual seconds (idle, saturating demand at four instants per second, steady single-token demand once per second), or a memory-adaptive rule (thresholds, water marks) with a sweep of injected memory readings. " +
 			"Warm-up: admitted tokens in every aligned statistic window <= threshold; first second after an idle of >= 2*period+2 s admits <= ceil(T/coldFactor)+1; the last second of a saturating phase of >= 2*period+5 s admits >= floor(T); a steady single-token demand of >= 4*period+10 s is admitted at least once when T >= 1; the effective threshold (overlay accessor) is finite, >= 0 and <= T. " +
 			"Memory: effective threshold == low-memory threshold at/below the low mark, == high-memory threshold at/above the high mark, between them and non-increasing in between; a fresh window admits exactly floor(effective). non-trivial = a cold start was observed and the full threshold was reached later (warm-up) / all three regions were visited (memory); distinct = hash(config, ops)",
